@@ -43,7 +43,16 @@ pub fn read_table_block(
     f: &dyn RandomAccess,
     location: &BlockHandle,
 ) -> Result<Block> {
-    Ok(Block::new(opt, read_block_contents(f, location)?))
+    let contents = read_block_contents(f, location)?;
+    // A block can carry a valid checksum and still not be a block (foreign or crafted files);
+    // the iterators would panic on it.
+    if !Block::is_well_formed(&contents) {
+        return err(
+            StatusCode::Corruption,
+            &format!("malformed block at {}", location.offset()),
+        );
+    }
+    Ok(Block::new(opt, contents))
 }
 
 /// Reads the block at `location`, verifies its checksum and decompresses it if necessary.
